@@ -108,7 +108,7 @@ def run(ctx):
         N("QWidget", "dup", N("QGroupBox", "dup", N("QLabel", "dup"))),
     ]
     trees = list(corpus_src)
-    n = 2500 if ctx.tier == "thorough" else 500
+    n = 8000 if ctx.tier == "thorough" else 500
     for _ in range(n):
         dup_ok = rng.random() < 0.15
         trees.append(gen_tree(rng, 3, list(ID_POOL), dup_ok))
